@@ -24,7 +24,7 @@ def describe(tier):
                 f"sequences from the C13 menu containing SOLL; x {b['cers']} content evaluation results x both flag values. Oracle "
                 "(metamorphic): validate(ahb, flag) == validate(ahb with every SOLL rewritten to MUSS if flag else KANN, flag') for BOTH "
                 "flag' - the whole result list (status, hints, format result, offered values) or the same exception class; through "
-                "validate_deep_anwendungshandbuch, validate_segment_level and validate_segment. The rewriting is done on the reference "
+                "validate_deep_anwendungshandbuch, validate_segment_level (root = segment group, and root = the first segment), and validate_segment. The rewriting is done on the reference "
                 "split (R5) of each expression. For the chain family also call SEQUENCES in one context (flag False then True; True, False, "
                 "True): each run equals its single run. Non-trivial = trees with SOLL at depth >= 2 (sub group, segment or data element).",
         "bounds": b,
@@ -144,14 +144,16 @@ def check_case(shape, exprs, cer, variant=0):
     groups = _pool_variant(H.model_from(shape, exprs, variant), variant)
     if not has_soll(groups):
         return None
-    entries = ["deep", "segment_level"] + (["segment"] if groups[0]["segments"] else [])
+    entries = ["deep", "segment_level"] + (["segment", "segment_root"] if groups[0]["segments"] else [])
     for flag in (True, False):
         to = "Muss" if flag else "Kann"
         rew = rewrite_model(groups, to)
         for entry in entries:
-            a = H.V.run_validation(groups, H.env(cer), flag, entry=entry)
+            # segment_root: validate_segment_level called with the first SEGMENT as the root
+            g1, g2 = (groups, rew) if entry != "segment_root" else ([groups[0]["segments"][0]], [rew[0]["segments"][0]])
+            a = H.V.run_validation(g1, H.env(cer), flag, entry=entry)
             for flag2 in (True, False):
-                b = H.V.run_validation(rew, H.env(cer), flag2, entry=entry)
+                b = H.V.run_validation(g2, H.env(cer), flag2, entry=entry)
                 if a != b:
                     detail = None
                     if a[0] == "ok" and b[0] == "ok":
